@@ -82,6 +82,24 @@ Silent ==
 
 TNext == Consume \/ Silent
 
+(* Fine-grained executions (line-level pre-emption in the harness): an invisible step may happen at any later   *)
+(* time, so the projection logged right after a visible operation is compared right after that operation, and   *)
+(* TLC infers when the invisible steps of all threads happened.                                                  *)
+ProjP == [go |-> go', halting |-> halting', finished |-> finished', nthreads |-> Len(threads'),
+          sstate |-> sstate', nwritten |-> [t \in Players |-> Len(written'[t])],
+          terminated |-> terminated', alive |-> alive']
+ConsumeF ==
+  /\ l <= Len(Traces[tid].events)
+  /\ LET e == Ev IN
+       /\ Kind(pc[e.proc]) = e.op
+       /\ StepOf(e.proc)
+       /\ (e.proc = MainId /\ e.obj > 0) => Target(pc[MainId]) = e.obj
+       /\ IF ProjP = e.after THEN TRUE ELSE PrintT(<<"REJECT", tid, l, "state">>) /\ FALSE
+  /\ l' = l + 1 /\ UNCHANGED tid
+TNextF == ConsumeF \/ Silent
+AtEndF == l = Len(Traces[tid].events) + 1
+AcceptedF == AtEndF => PrintT(<<"ACCEPT", tid>>)
+
 AtEnd == l = Len(Traces[tid].events) + 1 /\ Stable
 Accepted == (AtEnd /\ ProjFailing(Traces[tid].events[l - 1].after) = <<>>) => PrintT(<<"ACCEPT", tid>>)
 \* how far each trace got (diagnostics for rejected traces)
